@@ -338,7 +338,7 @@ theorem installGroups_good {S C : Nat → Prop} {o : Nat} {m : String} {attr : O
     have hgs : S g := hg g (by simp)
     have g1 := nextPid_good hc (w.nextPid + 1)
     have hin : Watcher.inSet S ⟨g, ⟨.mcaller, o, m, some (groupChanged cs g), w.nextPid,
-        if groupCallback cs g then some (o, attr) else Option.none⟩, groupNames cs g, -1⟩ := by
+        if groupCallback cs g then some (o, attr) else Option.none⟩, groupNames cs g, -1, 0⟩ := by
       refine ⟨hgs, ho, ?_⟩
       intro cb hcb
       simp only at hcb
@@ -387,7 +387,7 @@ theorem installConst_good {w : World} {S C : Nat → Prop} {o : Nat} {md : Metho
     have g2 := nextPid_good g1.closed ((w.touchAll (ps.map fun p => (o, p))).nextPid + 1)
     have g3 : Good _ (World.addWatcher { (w.touchAll (ps.map fun p => (o, p))) with
           nextPid := (w.touchAll (ps.map fun p => (o, p))).nextPid + 1 }
-        ⟨o, ⟨.mcaller, o, md.name, Option.none, (w.touchAll (ps.map fun p => (o, p))).nextPid, Option.none⟩, ps, -1⟩) S C :=
+        ⟨o, ⟨.mcaller, o, md.name, Option.none, (w.touchAll (ps.map fun p => (o, p))).nextPid, Option.none⟩, ps, -1, 0⟩) S C :=
       addWatcher_good g2.closed ⟨ho, ho, by simp⟩
     exact (g1.trans g2).trans g3
 
@@ -846,7 +846,11 @@ theorem doWatch_good {w w' : World} {S C : Nat → Prop} {o t : Nat} {p : List S
   split at h
   · split at h
     · simp at h; subst h
-      exact addWatcher_good hc ⟨ho, ht, by simp⟩
+      have g1 := nextPid_good hc (w.nextPid + 1)
+      have g2 : Good _ (World.addWatcher { w with nextPid := w.nextPid + 1 }
+          ⟨o, ⟨.bound, t, cb, Option.none, 0, Option.none⟩, p, 0, w.nextPid⟩) S C :=
+        addWatcher_good g1.closed ⟨ho, ht, by simp⟩
+      exact g1.trans g2
     · simp at h
   · simp at h
 
@@ -872,7 +876,7 @@ theorem doWatchPartial_good {w w' : World} {S C : Nat → Prop} {o t : Nat} {p c
     · simp at h; subst h
       have g1 := nextPid_good hc (w.nextPid + 1)
       have g2 : Good _ (World.addWatcher { w with nextPid := w.nextPid + 1 }
-          ⟨o, ⟨.partialFn, t, cb, Option.none, w.nextPid, Option.none⟩, [p], 0⟩) S C :=
+          ⟨o, ⟨.partialFn, t, cb, Option.none, w.nextPid, Option.none⟩, [p], 0, 0⟩) S C :=
         addWatcher_good g1.closed ⟨ho, ht, by simp⟩
       exact g1.trans g2
     · simp at h
@@ -899,7 +903,8 @@ theorem doWatchSlot_good {w w' : World} {S C : Nat → Prop} {o t : Nat} {p cb :
           | some ob =>
             simp only [hob, Option.bind_some] at hl
             exact (g1.closed o ob ho hob).pcopies _ (lookup_mem hl)
-        refine g1.trans (setObj_good g1.closed ho (fun ob _ hh => ⟨hh.values, hh.attrs, hh.watchers, hh.dyn, ?_⟩))
+        have g1' := nextPid_good g1.closed ((w.touchParam o p).nextPid + 1)
+        refine (g1.trans g1').trans (setObj_good g1'.closed ho (fun ob _ hh => ⟨hh.values, hh.attrs, hh.watchers, hh.dyn, ?_⟩))
         intro kv hkv
         rcases mem_insert hkv with rfl | hm
         · refine ⟨hpcIn.1, ?_⟩
